@@ -454,6 +454,9 @@ fn network_cut(ds: &PartialDSet, d: usize, edge_mode: bool)
         ds, d, edge_mode, elm_to_index, edges, source, sink
     );
 
+    #[cfg(rust_dsymbols_verif)]
+    crate::verif_hooks::record_network(&edges, source, sink);
+
     let cut_raw = min_vertex_cut_undirected(edges, source, sink);
 
     let marked: HashSet<_> = cut_with_insides(cut_raw, reps, ds, d).iter()
@@ -467,6 +470,17 @@ fn network_cut(ds: &PartialDSet, d: usize, edge_mode: bool)
     if let Some(&start) = marked.iter()
         .find(|&&e| !marked.contains(&ds.op(0, e).unwrap()))
     {
+        // verification build: the pick above depends on hash order; let the
+        // explorer decide which of the candidates plays "first in hash order"
+        #[cfg(rust_dsymbols_verif)]
+        let start = {
+            let _ = start;
+            let mut candidates: Vec<_> = marked.iter().cloned()
+                .filter(|&e| !marked.contains(&ds.op(0, e).unwrap()))
+                .collect();
+            candidates.sort();
+            candidates[crate::verif_hooks::choose(candidates.len())]
+        };
         Some(cut_pairs_in_order(ds, start, marked, special))
     } else {
         None
